@@ -391,6 +391,67 @@ def eval_limits(case):
                 sample={"shape": shape, "length": n, "outcomes": {k: list(v) for k, v in summary.items()}})
 
 
+TAGGED = {
+    "binary": ["aGVsbG8gd29ybGQ=", "aGVsbG8g d29ybGQ=", "aGVs bG8g d29y bGQ=", "", "QQ==", "AAECAwQFBgc="],
+    "int": ["12", "-12", "+12", "0x1F", "0b101", "010", "1_000", "190:20:30", "0"],
+    "float": ["1.5", "-1.5", ".5", "1e3", "1.5e+3", ".inf", "-.INF", ".NaN", "190:20:30.15", "1_0.5", "12"],
+    "bool": ["yes", "No", "TRUE", "off", "on", "false"],
+    "null": ["~", "null", "Null", ""],
+    "timestamp": ["2001-12-14", "2001-12-14 21:59:43.10 -5", "2001-12-14t21:59:43.10-05:00", "2001-12-15 2:59:43.10", "2002-1-1 1:01:01"],
+    "str": ["text", "12", "true", "a b", "", "2001-01-01"],
+}
+
+
+def tagged_scalar_docs():
+    """Every core scalar tag, explicitly written, on valid contents in every scalar style and layout (plain incl. a
+    continuation line, single- and double-quoted incl. folded lines, literal, folded) at several positions."""
+    def mk(t):
+        tag, ci, style, pos, nl = t
+        content = TAGGED[tag][ci % len(TAGGED[tag])]
+        words = content.split(" ")
+        if style == "plain":
+            body = content if content else None
+        elif style == "plain-multiline":
+            body = ("\n    ".join(words)) if len(words) > 1 else content or None
+        elif style == "single":
+            body = "'%s'" % content
+        elif style == "double":
+            body = '"%s"' % content
+        elif style == "double-multiline":
+            body = '"%s"' % "\n    ".join(words)
+        elif style == "literal":
+            body = "|-\n    " + "\n    ".join(words) if content else "|-\n"
+        else:
+            body = ">-\n    " + "\n    ".join(words) if content else ">-\n"
+        if body is None:
+            return None
+        node = "!!%s %s" % (tag, body)
+        block = style in ("literal", "folded")
+        if pos == "value":
+            text = "k: %s\n" % node
+        elif pos == "item":
+            text = "- %s\n" % node
+        elif pos == "flow" and not block:
+            text = "[%s, x]\n" % node.replace("\n    ", "\n  ")
+        elif pos == "key" and not block and "\n" not in node:
+            text = "? %s\n: v\n" % node
+        else:
+            text = "--- %s\n" % node
+        return text.replace("\n", nl)
+    return st.tuples(st.sampled_from(sorted(TAGGED)), st.integers(0, 20),
+                     st.sampled_from(["plain", "plain-multiline", "single", "double", "double-multiline", "literal", "folded"]),
+                     st.sampled_from(["value", "item", "flow", "key", "root"]), st.sampled_from(["\n", "\n", "\r\n"])).map(mk)
+
+
+def eval_tagged(text):
+    if text is None:
+        return Eval([], ["tagged:skipped-empty-plain"], nontrivial=False, ident="none", evals=1)
+    failures, evals, summary = compare_text(text)
+    tag = text.split("!!", 1)[1].split(" ", 1)[0].split("\n")[0].split("\r")[0] if "!!" in text else "?"
+    return Eval(failures, ["tagged:%s" % tag], nontrivial=True, ident=text, evals=evals,
+                sample={"text": text, "outcomes": {k: list(v) for k, v in summary.items()}})
+
+
 def arms(tier):
     return [
         Arm("portable", eval_portable, lambda: gd.streams(3, 10), quick=9000, thorough=500000),
@@ -399,6 +460,7 @@ def arms(tier):
         Arm("malformed", eval_malformed, enum=enum_malformed, exhaustive=True),
         Arm("stream-delivery", eval_stream_delivery, stream_cases, quick=1500, thorough=60000),
         Arm("limits", eval_limits, enum=enum_limits, exhaustive=True),
+        Arm("tagged-scalars", eval_tagged, tagged_scalar_docs, quick=1500, thorough=40000),
     ]
 
 
